@@ -158,19 +158,24 @@ fn children(expr: &BoundExpression) -> Vec<&BoundExpression> {
 
 /// Shifts column indices by offset (in every kind of expression, not only binary operators).
 fn shift_columns(expr: &BoundExpression, offset: i32) -> Option<BoundExpression> {
-    let boxed = |e: &BoundExpression| shift_columns(e, offset).map(Box::new);
+    map_columns(expr, &|idx| {
+        let new_idx = idx as i32 + offset;
+        if new_idx < 0 { None } else { Some(new_idx as usize) }
+    })
+}
+
+/// Rewrites every column index of an expression through `f`; `None` if `f` rejects an index
+/// or the expression has a shape whose column references cannot be rewritten.
+fn map_columns(
+    expr: &BoundExpression,
+    f: &dyn Fn(usize) -> Option<usize>,
+) -> Option<BoundExpression> {
+    let boxed = |e: &BoundExpression| map_columns(e, f).map(Box::new);
     match expr {
-        BoundExpression::ColumnBinding(c) => {
-            let new_idx = c.column_idx as i32 + offset;
-            if new_idx < 0 {
-                None
-            } else {
-                Some(BoundExpression::ColumnBinding(Binding {
-                    column_idx: new_idx as usize,
-                    ..*c
-                }))
-            }
-        }
+        BoundExpression::ColumnBinding(c) => Some(BoundExpression::ColumnBinding(Binding {
+            column_idx: f(c.column_idx)?,
+            ..*c
+        })),
         BoundExpression::BinaryOp {
             left,
             op,
@@ -214,7 +219,7 @@ fn shift_columns(expr: &BoundExpression, offset: i32) -> Option<BoundExpression>
             expr: boxed(expr)?,
             list: list
                 .iter()
-                .map(|e| shift_columns(e, offset))
+                .map(|e| map_columns(e, f))
                 .collect::<Option<Vec<_>>>()?,
             negated: *negated,
         }),
@@ -227,7 +232,7 @@ fn shift_columns(expr: &BoundExpression, offset: i32) -> Option<BoundExpression>
             func: func.clone(),
             args: args
                 .iter()
-                .map(|e| shift_columns(e, offset))
+                .map(|e| map_columns(e, f))
                 .collect::<Option<Vec<_>>>()?,
             distinct: *distinct,
             return_type: *return_type,
@@ -497,28 +502,67 @@ impl TransformationRule for JoinCommutativityRule {
         )
     }
 
-    fn apply(&self, expr: &LogicalExpr, _memo: &mut Memo) -> PlannerResult<Vec<LogicalExpr>> {
+    fn apply(&self, expr: &LogicalExpr, memo: &mut Memo) -> PlannerResult<Vec<LogicalExpr>> {
         let LogicalOperator::Join(join) = &expr.op else {
             return Ok(vec![]);
         };
         if expr.children.len() != 2 {
             return Ok(vec![]);
         }
+        // The exchanged join goes into the memo as an expression of its own; exchanging that one
+        // again would only rebuild this join. Apply the rule in one direction.
+        if expr.children[0] >= expr.children[1] {
+            return Ok(vec![]);
+        }
 
-        let swapped_cond = join.condition.as_ref().map(swap_join_condition);
+        // B JOIN A produces B's columns first. Column references in the condition are positions
+        // in the joined row, so they have to follow the columns to their new positions, and a
+        // projection on top puts the columns back into the order every parent of this group
+        // expects. (Exchanging the inputs alone made the condition and the parents read the
+        // wrong columns whenever this alternative was the cheapest one.)
+        let left_cols = join.left_schema.num_columns();
+        let right_cols = join.right_schema.num_columns();
+        let to_swapped = |idx: usize| -> Option<usize> {
+            if idx < left_cols {
+                Some(idx + right_cols)
+            } else if idx < left_cols + right_cols {
+                Some(idx - left_cols)
+            } else {
+                None
+            }
+        };
+
+        let swapped_cond = match &join.condition {
+            Some(cond) => match map_columns(cond, &to_swapped) {
+                Some(c) => Some(c),
+                None => return Ok(vec![]),
+            },
+            None => None,
+        };
         let new_join = JoinOp::new(
             join.join_type,
             swapped_cond,
             join.right_schema.clone(),
             join.left_schema.clone(),
         );
+        let swapped_schema = new_join.output_schema.clone();
+        let swapped_group = memo.insert_logical_expr(LogicalExpr::new(
+            LogicalOperator::Join(new_join),
+            vec![expr.children[1], expr.children[0]],
+        ));
+
+        let restore: Vec<ProjectExpr> = (0..left_cols + right_cols)
+            .filter_map(|idx| to_swapped(idx))
+            .map(|idx| ProjectExpr {
+                expr: create_column_ref(idx, &swapped_schema),
+                alias: None,
+            })
+            .collect();
+        let project = ProjectOp::new(restore, swapped_schema, join.output_schema.clone());
 
         Ok(vec![
-            LogicalExpr::new(
-                LogicalOperator::Join(new_join),
-                vec![expr.children[1], expr.children[0]],
-            )
-            .with_properties(expr.properties.clone()),
+            LogicalExpr::new(LogicalOperator::Project(project), vec![swapped_group])
+                .with_properties(expr.properties.clone()),
         ])
     }
 }
